@@ -165,7 +165,7 @@ def run_symx(mod, mod_name, prop, args, seed):
         if r['hit_limit']:
             inconclusive.append({'cell': r['id'], 'why': f"path limit reached ({r['paths']} paths)"})
         if r['timeout']:
-            inconclusive.append({'cell': r['id'], 'why': 'cell time limit reached'})
+            inconclusive.append({'cell': r['id'], 'why': r.get('timeout_why', 'cell time limit reached')})
         for u in r['unsupported'][:3]:
             inconclusive.append({'cell': r['id'], 'why': 'unsupported construct: ' + u})
         for e in r['harness_errors'][:3]:
